@@ -15,6 +15,7 @@ THEOREM = 'C18_quote_agree / C18_write_agree / C18_cross_roundtrip / C18_readers
 c10 = importlib.import_module('props.c10')
 c11 = importlib.import_module('props.c11')
 c07 = importlib.import_module('props.c07')
+c12 = importlib.import_module('props.c12')
 
 
 def part_split(ctx):
@@ -122,6 +123,19 @@ def part_write_and_cross(ctx):
     ctx.sample({'part': 'cross py->js', 'policy': ex['pol'], 'delimiter': ex['dlm'], 'text_written_by_python': ex['texts'][0], 'read_by_js': got_js_reads[0][0]})
 
 
+POLCODE = {'simple': 0, 'quoted': 1, 'quoted_rfc': 2, 'whitespace': 3, 'monocolumn': 4}
+
+
+def model_outcome(d):
+    """c12.dec_result form -> the form of the implementation drivers (harness/impl/c18.*)"""
+    if d[0] == 'ok':
+        kinds = (['bom'] if d[3][0] else []) + (['quoting'] if d[3][1] is not None else []) + (['num_fields'] if d[3][2] is not None else [])
+        return {'records': d[1], 'header': d[2], 'warnings': sorted(kinds), 'error': None}
+    if d[0] == 'err':
+        return {'records': None, 'header': None, 'warnings': None, 'error': 'IO'}
+    return {'model': d}
+
+
 def part_readers(ctx):
     """the same file through both readers (policies x comment prefix x header): identical records / warnings / error"""
     alpha = ['a', '"', ',', ' ', '\n', '\r', '#']
@@ -156,6 +170,19 @@ def part_readers(ctx):
                 return 'readers differ on text %r (%s, comment prefix %r, header %s): python %s, javascript %s' % (t, c['pol'], c['comment_prefix'], c['has_header'], json.dumps(x), json.dumps(y))
         return 'readers: %s vs %s' % (json.dumps(e)[:200], json.dumps(g)[:200])
     ctx.compare(cases, gp, gj, THEOREM, rel=rel, describe=desc, corrupt=lambda e: (e + ['CANARY']) if isinstance(e, list) else 'CANARY')
+    # the model: the reader specification records_of_text (= both stream readers, C18_readers_agree) over the real splitter model
+    flat = [(ci, t) for ci, c in enumerate(cases) for t in c['texts']]
+    args = [lib.enc([c12.cfg_sx({'policy': cases[ci]['pol'], 'comment': cases[ci]['comment_prefix'], 'header': cases[ci]['has_header']}, 'utf-8'),
+                     POLCODE[cases[ci]['pol']], cases[ci]['dlm'], t]) for ci, t in flat]
+    mres = lib.run_model(250, args)
+    exp = [[] for _ in cases]
+    for (ci, t), m in zip(flat, mres):
+        exp[ci].append(model_outcome(c12.dec_result(m)))
+    ctx.compare([dict(c, impl='py') for c in cases], exp, gp, THEOREM, rel=rel,
+                describe=lambda c, e, g: 'python reader vs reader spec over smart_split: ' + desc(c, e, g))
+    ctx.compare([dict(c, impl='js') for c in cases], exp, gj, THEOREM, rel=rel,
+                describe=lambda c, e, g: 'javascript reader vs reader spec over smart_split: ' + desc(c, e, g))
+    ctx.cross_check_vm(250, args, mres, n=40)
     n = sum(len(c['texts']) for c in cases)
     ctx.count(n * 2)
     ctx.stat('reader_files_x_cfg', n)
